@@ -5,7 +5,7 @@ import ast
 from typing import Dict, List, Optional, Set, Tuple
 
 from .. import cfg as cfgmod
-from ..astutil import alias_map, call_name, const_int, expand_alias, fstring_parts, is_attr_of
+from ..astutil import kwarg, alias_map, call_name, const_int, expand_alias, fstring_parts, is_attr_of
 from ..index import AnalysisError, AnchorVanished, norm, short, walk_local
 from ..linear import Lin, eq as lin_eq, show
 from .common import get_cg
@@ -518,7 +518,7 @@ def r5_2(ctx):
         g = cfgmod.build(f.node)
         rd = g.reaching_defs(weak=False)
         # shift variable used in _Span(start + V, end + V, style)
-        gens = [x for x in walk_local(f.node) if isinstance(x, ast.GeneratorExp) and isinstance(x.elt, ast.Call) and norm(x.elt.func) in ("_Span", "Span") and "._spans" in norm(x.generators[0].iter)]
+        gens = [x for x in walk_local(f.node) if isinstance(x, (ast.GeneratorExp, ast.ListComp)) and isinstance(x.elt, ast.Call) and norm(x.elt.func) in ("_Span", "Span") and "._spans" in norm(x.generators[0].iter)]
         for ge in gens:
             n += 1
             tv = [norm(t) for t in ge.generators[0].target.elts]
@@ -1032,4 +1032,130 @@ def r5_8(ctx):
     units_check(ctx, m.fn("Text.align"), {"width"}, floor=1)
 
 
-RULES = [r5_0, r5_1, r5_2, r5_3, r5_4, r5_5, r5_6, r5_7, r5_8]
+def r5_9(ctx):
+    ctx.rule("R5.9", "indexing agrees with slicing: in Text.__getitem__ the integer branch (a) normalises a negative index before it is compared with span offsets (which are never negative) - by adding len(...) under a `< 0` test, by range(len(..))[i] or by a modulo - and (b) builds the one-character Text with the text's base style (style=self.style), as the slice branch does through divide()/blank_copy(); otherwise t[-1] loses every span and t[i] loses the base style although t[i:i+1] keeps both")
+    th = ctx.repo.cls(f"{TEXT_MOD}:Text")
+    f = th.method("__getitem__")
+    if f is None:
+        raise AnchorVanished("Text.__getitem__ not found")
+    m = f.module
+    fam = [f] + [q for k, q in m.functions.items() if k.startswith("Text.__getitem__.<locals>.")]
+    # the span filter: a comprehension over self._spans whose condition compares a name with the span bounds
+    site = None
+    for q in fam:
+        for x in walk_local(q.node):
+            if isinstance(x, (ast.ListComp, ast.GeneratorExp)) and len(x.generators) == 1 and norm(x.generators[0].iter) == "self._spans" and x.generators[0].ifs:
+                site = (q, x)
+    loop_var = None
+    if site is None:
+        # shape B: an explicit loop  `for start, end, style in self._spans: if <test on offset>: acc.append(Span(0, 1, style))`
+        class _Shim:
+            pass
+        for q in fam:
+            for x in walk_local(q.node):
+                if isinstance(x, ast.For) and norm(x.iter) == "self._spans" and len(x.body) == 1 and isinstance(x.body[0], ast.If) and not x.body[0].orelse:
+                    apps = [c_ for c_ in ast.walk(x.body[0]) if isinstance(c_, ast.Call) and isinstance(c_.func, ast.Attribute) and c_.func.attr == "append" and isinstance(c_.func.value, ast.Name)]
+                    if len(apps) == 1:
+                        shim = _Shim()
+                        shim.generators = [_Shim()]
+                        shim.generators[0].target = x.target
+                        shim.generators[0].ifs = [x.body[0].test]
+                        shim.lineno = x.lineno
+                        shim._src = x
+                        site = (q, shim)
+                        loop_var = apps[0].func.value.id
+    if site is None:
+        raise AnalysisError("Text.__getitem__: no span filter `[... for start, end, style in self._spans if ...offset...]` found; the integer branch is written in a form this rule does not read")
+    q, comp = site
+    tv = [norm(t) for t in comp.generators[0].target.elts] if isinstance(comp.generators[0].target, ast.Tuple) else []
+    names = {n.id for c_ in comp.generators[0].ifs for n in ast.walk(c_) if isinstance(n, ast.Name)} - set(tv)
+    if len(names) != 1:
+        raise AnalysisError(f"Text.__getitem__: the span filter compares {sorted(names)} with the span bounds; expected one offset name")
+    off = names.pop()
+    # where does the offset come from?  follow parameter binding of the local helper back to the index parameter
+    idx_param = f.params[1]
+    chain_names = {off}
+    if q is not f and off in q.params:
+        for c_ in walk_local(f.node):
+            if isinstance(c_, ast.Call) and isinstance(c_.func, ast.Name) and c_.func.id == q.node.name and c_.args:
+                for n in ast.walk(c_.args[q.params.index(off)]):
+                    if isinstance(n, ast.Name):
+                        chain_names.add(n.id)
+    normalised = False
+    for qq in fam:
+        g_ = cfgmod.build(qq.node)
+        for nd in g_.stmt_nodes():
+            if nd.kind != "stmt" or not isinstance(nd.stmt, (ast.Assign, ast.AugAssign)):
+                continue
+            tgt = nd.stmt.targets[0] if isinstance(nd.stmt, ast.Assign) else nd.stmt.target
+            if not (isinstance(tgt, ast.Name) and tgt.id in chain_names | {idx_param}):
+                continue
+            v = norm(nd.stmt.value)
+            if "len(" in v and isinstance(nd.stmt, ast.AugAssign) and isinstance(nd.stmt.op, ast.Add):
+                facts = {(norm(t0), v0) for t0, v0 in g_.branch_facts(nd.id)}
+                if any((f"{n_} < 0", True) in facts or (f"{n_} >= 0", False) in facts for n_ in chain_names | {idx_param}):
+                    normalised = True
+            if isinstance(nd.stmt, ast.Assign) and ("range(len(" in v or ("%" in v and "len(" in v) or ("len(" in v and "+" in v)):
+                normalised = True
+    where = f"{m.relpath}:{comp.lineno}"
+    ctx.check(normalised, f.fq, short(comp) if loop_var is None else short(comp._src), where, "a negative index is normalised before the comparison with span offsets",
+              f"the index is compared with span offsets as given (`{' and '.join(norm(c_) for c_ in comp.generators[0].ifs)}`): for a negative index no span ever matches, so Text('abc', spans=[Span(0, 3, 'red')])[-1] is an unstyled 'c' while [2] is red")
+    # base style
+    ctor = None
+    for x in walk_local(q.node):
+        if isinstance(x, ast.Call) and norm(x.func) in ("Text", "self.__class__", "type(self)"):
+            argv = list(x.args) + [k.value for k in x.keywords]
+            if loop_var is None and any(comp is a or any(comp is n for n in ast.walk(a)) for a in argv):
+                ctor = x
+            if loop_var is not None and any(isinstance(a, ast.Name) and a.id == loop_var for a in argv):
+                ctor = x
+    if ctor is None:
+        raise AnalysisError("Text.__getitem__: the Text built from the span filter was not found")
+    st = kwarg(ctor, "style") or (ctor.args[1] if len(ctor.args) > 1 else None)
+    ctx.check(st is not None and norm(st) == "self.style", f.fq, short(ctor), f"{m.relpath}:{ctor.lineno}", "the one-character Text carries the base style",
+              f"`{short(ctor)}` drops the text's base style: Text('abc', style='red')[1] is unstyled while [1:2] is red")
+
+
+def r5_10(ctx):
+    ctx.rule("R5.10", "no list is extended lazily from itself: in rich/text.py an `X.extend(<generator>)` / `X += <generator>` whose generator iterates the same attribute of a PARAMETER (`self._spans.extend(f(s) for s in text._spans)`) is a loop over a growing list when the parameter is the object itself (t.append(t) never terminates); the source must be materialised first - a list comprehension, list(...), a slice copy - or the call be guarded by an identity test")
+    m = ctx.repo.mod(TEXT_MOD)
+    n = 0
+    for f in m.functions.values():
+        if f.cls is None or f.cls.name != "Text" or m.in_main_guard(f.node):
+            continue
+        params = set(f.params[1:])
+        for x in walk_local(f.node):
+            if not (isinstance(x, ast.Call) and isinstance(x.func, ast.Attribute) and x.func.attr == "extend" and len(x.args) == 1 and isinstance(x.func.value, ast.Attribute) and norm(x.func.value.value) == "self"):
+                continue
+            attr = x.func.value.attr
+            a = x.args[0]
+            if isinstance(a, ast.Name):
+                from ..astutil import single_defs as _sdf10
+                a = _sdf10(f.node).get(a.id, a)
+            if isinstance(a, ast.Call) and norm(a.func) in ("list", "tuple") and len(a.args) == 1 and isinstance(a.args[0], ast.GeneratorExp):
+                a = ast.ListComp(elt=a.args[0].elt, generators=a.args[0].generators)
+            if not isinstance(a, (ast.GeneratorExp, ast.ListComp)):
+                continue
+            it = a.generators[0].iter
+            if not (isinstance(it, ast.Attribute) and it.attr == attr and isinstance(it.value, ast.Name) and it.value.id in params):
+                continue
+            n += 1
+            where = f"{m.relpath}:{x.lineno}"
+            if isinstance(a, ast.ListComp):
+                ctx.ok(where, f"self.{attr} extended from a materialised list", f.fq)
+                continue
+            g_ = cfgmod.build(f.node)
+            st = x
+            while not isinstance(st, ast.stmt):
+                st = m.parent_of[st]
+            pn = it.value.id
+            facts = set()
+            for nid in g_.nodes_of(st):
+                facts |= {(norm(t0), v0) for t0, v0 in g_.branch_facts(nid)}
+            guarded = bool({(f"{pn} is self", False), (f"{pn} is not self", True), (f"self is {pn}", False), (f"self is not {pn}", True)} & facts)
+            ctx.check(guarded, f.fq, short(x), where, f"`{pn}` is known not to be self",
+                      f"`{short(x)}` extends self.{attr} from a generator over `{pn}.{attr}`: when `{pn}` is the text itself the list grows while it is being iterated and the call never returns (t.append(t))")
+    ctx.floor(n, 2, "self-extensions from a parameter's list in Text")
+
+
+RULES = [r5_0, r5_1, r5_2, r5_3, r5_4, r5_5, r5_6, r5_7, r5_8, r5_9, r5_10]
